@@ -40,6 +40,7 @@ ASSUMPTIONS = [
     "atheris driver of DESIGN 5/C20 not implemented; thorough tier is Hypothesis only",
 ]
 SHARDS = {"quick": 16, "thorough": 16}
+WALL = {"quick": 400, "thorough": 1500}  # ~25-40 s on an idle 16-core machine; import-bound under load
 
 LAST: dict = {}
 
